@@ -58,8 +58,6 @@ def Limiter.increase (l : Limiter) (n : Nat) : Charge :=
 
 /-- The panic sites of the modelled code. -/
 inductive Panic where
-  /-- `debug_assert!(preallocated, …)` in `Arena::new` (arena.rs:21-24) -/
-  | prealloc
   /-- `copy_within(byte_count.., 0)` / `len - byte_count` with `byte_count > len` (arena.rs:58-59) -/
   | shiftRange
   /-- `Vec::drain(start..)` with `start > len` (limited_vec.rs:71) -/
@@ -90,19 +88,27 @@ deriving Repr, DecidableEq
 
 def Arena.len (a : Arena) : Nat := a.data.length
 
-/-- `Arena::new` (arena.rs:12-27). `debug = true` is a build with `debug_assertions`.
-    When the charge fails, `try_reserve_exact` is not attempted (`and_then`), the failed charge stays
-    on the limiter and — in a release build — the arena is returned with capacity 0 (finding F5). -/
-def Arena.new (debug : Bool) (l : Limiter) (prealloc : Nat) : Outcome (Limiter × Arena) :=
-  match l.increase prealloc with
+/-- `SharedMemoryLimiter::decrease_usage` (limiter.rs:59-61): `fetch_sub`, which wraps around
+    silently (no overflow check on atomics) when more is subtracted than was charged. -/
+def Limiter.decrease (l : Limiter) (n : Nat) : Limiter :=
+  if n ≤ l.usage then { l with usage := l.usage - n }
+  else { l with usage := l.usage + (usizeMax + 1) - n }
+
+/-- `Arena::new` (arena.rs:12-32, after the repair of finding F5 in /repo commit 6823fd9): the
+    preallocation is first clamped to the limit (`preallocated_size.min(limiter.max())`), then charged
+    and reserved; if that fails (the limiter is already in use, or `try_reserve_exact` fails with
+    CapacityOverflow above `isize::MAX`) the charge is rolled back with `decrease_usage` and the arena
+    starts with capacity 0; the buffer is then allocated on demand by `append`. -/
+def Arena.new (l : Limiter) (prealloc : Nat) : Outcome (Limiter × Arena) :=
+  let size := min prealloc l.max
+  match l.increase size with
   | .overflow => .panic .usageOverflow
-  | .exceeded l' =>
-    if debug then .panic .prealloc else .ok (l', { cap := 0, data := [] })
+  | .exceeded l' => .ok (l'.decrease size, { cap := 0, data := [] })
   | .ok l' =>
-    if isizeMax < prealloc then
+    if isizeMax < size then
       -- try_reserve_exact: CapacityOverflow
-      if debug then .panic .prealloc else .ok (l', { cap := 0, data := [] })
-    else .ok (l', { cap := prealloc, data := [] })
+      .ok (l'.decrease size, { cap := 0, data := [] })
+    else .ok (l', { cap := size, data := [] })
 
 /-- `Arena::append` (arena.rs:29-52).
     The guard `capacity() - len() < slice.len()` is written `cap < len + |slice|`, which is the same
@@ -201,8 +207,8 @@ deriving Repr, DecidableEq
 
 /-- `HtmlRewriter::new` as far as memory goes (rewriter/mod.rs:176-190, transform_stream/mod.rs:66-69,
     selectors_vm/stack.rs:229): limiter with `max = M`, arena with `prealloc`, empty stack. -/
-def MemSys.init (debug : Bool) (M prealloc itemSize : Nat) : Outcome MemSys :=
-  match Arena.new debug (Limiter.new M) prealloc with
+def MemSys.init (M prealloc itemSize : Nat) : Outcome MemSys :=
+  match Arena.new (Limiter.new M) prealloc with
   | .ok (l, a) => .ok { lim := l, arena := a, vec := LimitedVec.new itemSize }
   | .err c (l, a) => .err c { lim := l, arena := a, vec := LimitedVec.new itemSize }
   | .panic p => .panic p
@@ -363,8 +369,8 @@ def TS.pending (t : TS) : Bytes := if t.hasBufferedData then t.buffer.data else 
 def TS.retained (t : TS) : Nat := t.pending.length
 
 /-- `TransformStream::new` as far as the buffer goes (transform_stream/mod.rs:66-77). -/
-def TS.new (debug : Bool) (M prealloc : Nat) : Outcome TS :=
-  match Arena.new debug (Limiter.new M) prealloc with
+def TS.new (M prealloc : Nat) : Outcome TS :=
+  match Arena.new (Limiter.new M) prealloc with
   | .ok (l, a) => .ok { lim := l, buffer := a, hasBufferedData := false }
   | .err c (l, a) => .err c { lim := l, buffer := a, hasBufferedData := false }
   | .panic p => .panic p
